@@ -83,7 +83,9 @@ class World:
         def up(x):
             c = next(self.counter)
             self.produced.append((x, c))
-            return ('v', x, c)
+            # a tuple example with a mutable member: what the consumer does to
+            # a value it was handed must not reach the cached copy
+            return ('v', x, c, [c])
         src = ld.new(dict(zip(self.keys, range(n))))
         base = src.map(up)
         if upstream == 'map-slice':
@@ -151,7 +153,7 @@ def run_history(ld, n, hist, cross_at, res, upstream='map'):
         bad = False
         for want_id, v in got:
             requested[want_id] += 1
-            if not (isinstance(v, tuple) and len(v) == 3 and v[0] == 'v'):
+            if not (isinstance(v, tuple) and len(v) == 4 and v[0] == 'v'):
                 res.violation('invented', {**case, 'step': s}, {'value': v}, sig=sig)
                 bad = True
                 break
@@ -162,6 +164,11 @@ def run_history(ld, n, hist, cross_at, res, upstream='map'):
                 break
             if (v[1], v[2]) not in w.produced:
                 res.violation('invented', {**case, 'step': s}, {'value': v}, sig=sig)
+                bad = True
+                break
+            if v[3] != [v[2]]:
+                res.violation('handed-out-value-was-mutated-in-cache', {**case, 'step': s},
+                              {'got': v}, sig=sig)
                 bad = True
                 break
             first_no = next(c for i, c in w.produced if i == want_id)
@@ -184,6 +191,8 @@ def run_history(ld, n, hist, cross_at, res, upstream='map'):
                     break
         if bad:
             break
+        for _, v in got:
+            v[3].append('consumer-was-here')
         # compute-once for everything that was allowed to be cached
         cnt = collections.Counter(i for i, _ in w.produced)
         for i, c in cnt.items():
